@@ -927,6 +927,8 @@ pub fn run_one(scn: u64, s: &Sched) -> OneResult {
 }
 
 pub fn run(a: &Args) -> Value {
+    // `sub`: the tracing subscriber of the process (none / fmt at TRACE level / otel): what the channel logs must not matter
+    crate::wire::install_subscriber(&a.opt_str("sub", "none"));
     let mut scheds: Vec<Sched> = a.sched.as_deref().map(crate::load_scheds).unwrap_or_default();
     let mut rng = StdRng::seed_from_u64(a.seed ^ 0x5E47E4);
     for i in 0..a.random {
